@@ -136,6 +136,7 @@ func markRunInner(c Case, w *Worker, collect bool) (res Result) {
 	gen := NewGen(r, GenOpts{Cfg: cfg, Comps: nameMarks, Symlinks: true, Batched: true, MaxLen: maxLen})
 	tree, _ := WalkTree(rig.FS, false)
 	scanned := 0
+	lastFailed, cutShort := false, false
 	checkTape := func() bool {
 		img, err := os.ReadFile(rig.Drive)
 		if err != nil {
@@ -158,11 +159,35 @@ func markRunInner(c Case, w *Worker, collect bool) (res Result) {
 		}
 		recs, _, err := ScanTape(img, Cfg{}, nil) // outer headers only
 		if err != nil {
-			viol("scan", "tape is not iterable: %v", err)
+			// the needle search above has seen every byte; the record-level comparisons need an iterable tape. That the tape stays
+			// iterable is C05's and C10's subject (a call that fails half-way in tape mode - e.g. a codec that refuses the record
+			// size at the first member with content - leaves a torn record behind): here the history just ends
+			if lastFailed {
+				res.count("histories_cut_by_a_torn_record_after_a_failed_call", 1)
+				cutShort = true
+				return false
+			}
+			res.Verdict, res.Msg = "inconclusive", fmt.Sprintf("tape is not iterable after a successful call: %v", err)
 			return false
 		}
 		seenCT := map[string]int64{}
+		seenBody := map[string]int64{}
 		for _, rc := range recs {
+			// the encrypted content of two records must not start alike either: every message has its own ephemeral share / session
+			// key packet within its first bytes (a keyed or replayed random source would make them equal - and the content readable)
+			if cfg.Enc != "" && rc.ContentLen >= 64 {
+				n := rc.ContentLen
+				if n > 160 {
+					n = 160
+				}
+				body := string(img[rc.ContentOff : rc.ContentOff+n])
+				if prev, dup := seenBody[body]; dup {
+					viol("deterministic-ciphertext|content", "the encrypted contents of the records at byte %d and %d start with the same %d bytes", prev, rc.Off, n)
+					return false
+				}
+				seenBody[body] = rc.Off
+				res.count("encrypted_contents_compared", 1)
+			}
 			// equal plaintext headers must not give equal ciphertext (a fixed nonce / file key would reveal which records are equal)
 			if ct := rc.Outer.PAXRecords["STFS.EmbeddedHeader"]; ct != "" {
 				if prev, dup := seenCT[ct]; dup {
@@ -208,12 +233,19 @@ func markRunInner(c Case, w *Worker, collect bool) (res Result) {
 			}
 		}
 		ops = append(ops, op.String())
-		_ = execOp(rig, op)
+		lastOut := execOp(rig, op)
+		lastFailed = !lastOut.OK
+		if !lastOut.OK {
+			ops[len(ops)-1] += " -> " + lastOut.Err
+		}
 		res.count("calls", 1)
 		if held := rig.LocksSettled(); len(held) > 0 {
 			break
 		}
 		if !checkTape() {
+			if cutShort {
+				break
+			}
 			return
 		}
 		tree, err = WalkTree(rig.FS, false)
@@ -315,6 +347,6 @@ func markRunInner(c Case, w *Worker, collect bool) (res Result) {
 func init() {
 	register(&Engine{Name: "markers", Props: []string{"C09"}, Cases: markCases, Run: markRun})
 	propMeta["C09"] = PropMeta{Level: "exploration",
-		Rule:        "per case one generated history (files, directories, symlinks, chmod/chown/chtimes, renames, removes, batched archive/update/delete/move) under {age,pgp} x 8 compression formats x {none,minisign,pgp} (an eighth of the cases with a tape-mode writer: whole records, padded sessions) whose names are 20-character random markers, whose contents embed a 40-character marker and whose owners/timestamps are marker numbers; after every call the raw drive file is searched for every marker (raw, hex, base64 at 3 alignments), for clear-text forms of the owner/timestamp values and for STFS.* keys and embedded-header field names, and every outer tar header found by an independent scan must be the fixed wrapper (all fields empty/zero, single PAX key STFS.EmbeddedHeader); at the end recovery.Index and recovery.Fetch with an unrelated key pair must fail; non-trivial = at least 5 records on the tape; distinct = distinct (configuration, call list)",
+		Rule:        "per case one generated history (files, directories, symlinks, chmod/chown/chtimes, renames, removes, batched archive/update/delete/move) under {age,pgp} x 8 compression formats x {none,minisign,pgp} (an eighth of the cases with a tape-mode writer: whole records, padded sessions) whose names are 20-character random markers, whose contents embed a 40-character marker and whose owners/timestamps are marker numbers; after every call the raw drive file is searched for every marker (raw, hex, base64 at 3 alignments), for clear-text forms of the owner/timestamp values and for STFS.* keys and embedded-header field names, and every outer tar header found by an independent scan must be the fixed wrapper (all fields empty/zero, single PAX key STFS.EmbeddedHeader); at the end recovery.Index and recovery.Fetch with an unrelated key pair must fail; non-trivial = at least 5 records on the tape; distinct = distinct (configuration, call list); the first 160 bytes of every pair of encrypted content records must differ",
 		Assumptions: []string{"markers are long enough that a chance occurrence in ciphertext has probability < 2^-60 per tape", "record lengths are allowed to be visible; cryptographic strength is not judged"}}
 }
